@@ -106,3 +106,82 @@ func IsSpaceTabEOL(c byte) bool { return c == ' ' || c == '\t' || c == '\n' || c
 var uriOut = regexp.MustCompile(`^(?:[A-Za-z0-9;/?:@&=+$,\-_.!~*'()#]|%[0-9A-Fa-f]{2})*$`)
 
 func URIOutputOK(s string) bool { return uriOut.MatchString(s) }
+
+// ---- inline constructs whose syntax the spec gives as a regular definition
+// (section 6.6 raw HTML, 6.5 autolinks, 2.5 entity and numeric character
+// references). ws: spaces, tabs and up to one line ending.
+const (
+	ws       = `(?:[ \t]+|[ \t]*(?:\r\n|\n|\r)[ \t]*)`
+	optws    = `(?:[ \t]*(?:(?:\r\n|\n|\r)[ \t]*)?)`
+	tagName  = `[A-Za-z][A-Za-z0-9-]*`
+	attrName = `[A-Za-z_:][A-Za-z0-9_.:-]*`
+	attrVal  = "(?:[^ \\t\\r\\n\"'=<>`]+|'[^']*'|\"[^\"]*\")"
+	attr     = ws + attrName + `(?:` + optws + `=` + optws + attrVal + `)?`
+)
+
+var (
+	openTagRE  = regexp.MustCompile(`^<` + tagName + `(?:` + attr + `)*` + optws + `/?>$`)
+	closeTagRE = regexp.MustCompile(`^</` + tagName + optws + `>$`)
+	declRE     = regexp.MustCompile(`^<![A-Za-z][^>]*>$`)
+	autoURIRE  = regexp.MustCompile(`^<[A-Za-z][A-Za-z0-9+.-]{1,31}:[^\x00-\x20\x7f<>]*>$`)
+	decRefRE   = regexp.MustCompile(`^&#[0-9]{1,7};$`)
+	hexRefRE   = regexp.MustCompile(`^&#[xX][0-9a-fA-F]{1,6};$`)
+	namedRefRE = regexp.MustCompile(`^&([A-Za-z0-9]+;)$`)
+)
+
+// HTMLTag reports which form of inline raw HTML the text is ("open", "close",
+// "comment", "pi", "decl", "cdata") or "" if it is none (CommonMark 0.30).
+func HTMLTag(s string) string {
+	switch {
+	case strings.HasPrefix(s, "<!--"):
+		if !strings.HasSuffix(s, "-->") || len(s) < 7 {
+			return ""
+		}
+		t := s[4 : len(s)-3]
+		if strings.HasPrefix(t, ">") || strings.HasPrefix(t, "->") || strings.HasSuffix(t, "-") || strings.Contains(t, "--") {
+			return ""
+		}
+		return "comment"
+	case strings.HasPrefix(s, "<?"):
+		if len(s) >= 4 && strings.HasSuffix(s, "?>") && strings.Index(s[2:], "?>") == len(s)-4 {
+			return "pi"
+		}
+		return ""
+	case strings.HasPrefix(s, "<![CDATA["):
+		if len(s) >= 12 && strings.HasSuffix(s, "]]>") && strings.Index(s[9:], "]]>") == len(s)-12 {
+			return "cdata"
+		}
+		return ""
+	case declRE.MatchString(s):
+		return "decl"
+	case closeTagRE.MatchString(s):
+		return "close"
+	case openTagRE.MatchString(s):
+		return "open"
+	}
+	return ""
+}
+
+// Autolink reports whether the text (with its angle brackets) is a URI
+// autolink ("uri"), an e-mail autolink ("email") or neither ("").
+func Autolink(s string) string {
+	if autoURIRE.MatchString(s) {
+		return "uri"
+	}
+	if len(s) >= 3 && s[0] == '<' && s[len(s)-1] == '>' && EmailRE.MatchString(s[1:len(s)-1]) {
+		return "email"
+	}
+	return ""
+}
+
+// CharRef reports whether the text is a numeric character reference or a named
+// one whose name (with its semicolon) is in the given table.
+func CharRef(s string, names map[string]bool) bool {
+	if decRefRE.MatchString(s) || hexRefRE.MatchString(s) {
+		return true
+	}
+	if m := namedRefRE.FindStringSubmatch(s); m != nil {
+		return names[m[1]]
+	}
+	return false
+}
